@@ -19,8 +19,10 @@ from mc.runner import Stats  # noqa: E402
 
 ID = "C17"
 LEVEL = "model_checking"
-TECHNIQUE = "explicit-state BFS over two real TLSMemoryBIOProtocol endpoints on a deterministic model TLS engine"
-RULE = ("BFS over histories of: application write on either side (direct, or from a registered push / pull producer; "
+TECHNIQUE = ("explicit-state BFS over two real TLSMemoryBIOProtocol endpoints on a deterministic model TLS engine; the engine "
+             "model is itself checked against the local libssl by a BFS over API call sequences, and every model history is "
+             "re-executed with real OpenSSL as the engine")
+RULE = ("Part M: BFS over histories of: application write on either side (direct, or from a registered push / pull producer; "
         "before, during and after the handshake, also after loseConnection), registerProducer / unregisterProducer, "
         "loseConnection by either side, delivery of a prefix of one direction's pending encrypted bytes (all / first byte / "
         "first half / first record), one reactor iteration of either endpoint's clock (flushes _AggregateSmallWrites, runs one "
@@ -29,10 +31,15 @@ RULE = ("BFS over histories of: application write on either side (direct, or fro
         "stream reference (lists of written chunks) decides prefix-exactness, no bytes written after loseConnection, at most one "
         "connectionLost and nothing after it; in every quiescent state it decides completeness, exactly one connectionLost per "
         "side and both transports closed.  Configurations: engine handshake shape (TLS 1.3-like 3 flights + post-handshake "
-        "ticket, TLS 1.2-like 4 flights), EOF error flavour (SysCallError / OpenSSL-3 Error), record fragment size, per-side "
-        "write mode, start from scratch or from the established connection.  non-trivial = distinct canonical states in which a "
-        "write is buffered waiting for the handshake, a partial record sits in an engine, a producer is paused, or exactly one "
-        "close_notify has been sent")
+        "ticket, TLS 1.2-like 4 flights), EOF error flavour (SysCallError / OpenSSL-3 Error), record fragment size, a 40000-byte "
+        "Certificate flight, per-side write mode, start from scratch or from the established connection, delivery-cut menu.  "
+        "Part C (trusted base): BFS over sequences of do_handshake/send/recv/shutdown/bio_shutdown/move-all/move-one-byte on a "
+        "client+server pair, executed on the model engine and on real OpenSSL (libssl via cryptography's cffi bindings) in lock "
+        "step; return/exception classes, the error reasons tls.py depends on and the shutdown/finished flags must agree (a "
+        "deviation is a harness error).  Part R: every history that reaches a distinct canonical state of part M (to a smaller "
+        "depth) is re-executed with real OpenSSL as the engine under the same oracle (evaluations = such histories).  "
+        "non-trivial = distinct canonical states in which a write is buffered waiting for the handshake, a partial record sits "
+        "in an engine, a producer is paused, or exactly one close_notify has been sent")
 BOUNDS = {"quick": "<= 2 writes per side (3-byte chunks). Model-engine BFS depth (from scratch / from the established connection): "
                    "10 / 9 with record-boundary cuts, 8 / 7 with first-byte + first-half cuts (one level less with producers on "
                    "both sides); engines 1.3+SysCallError-EOF (5 write-mode pairs) and 1.2+Error-EOF (3 pairs); 2-byte record "
@@ -43,22 +50,30 @@ BOUNDS = {"quick": "<= 2 writes per side (3-byte chunks). Model-engine BFS depth
                       "1.2+Error, direct/direct for the two other EOF flavours; conformance depth 12 / 8; real-OpenSSL "
                       "re-execution to depth 9 / 8"}
 ASSUMPTIONS = [
-    "trusted base: the model TLS engine in vendor/openssl_stub/OpenSSL/SSL.py stands in for pyOpenSSL+OpenSSL (memory BIOs, "
-    "WantReadError / ZeroReturnError / SysCallError, SSL_shutdown and handshake semantics transcribed from OpenSSL 1.1.1/3.x); "
-    "real OpenSSL is not exercised",
+    "trusted base: the model TLS engine in vendor/openssl_stub/OpenSSL/SSL.py stands in for pyOpenSSL+OpenSSL (pyOpenSSL cannot be "
+    "installed). Part C shows it agrees with the local libssl on every explored API call sequence that respects tls.py's usage "
+    "protocol (after bio_shutdown only recv; an engine that raised a fatal error is not used again); the SysCallError EOF "
+    "flavour of OpenSSL 1.1.1 and pyOpenSSL's own glue are transcribed from their sources, not executed",
     "completeness is demanded for bytes a side wrote before its own loseConnection when the receiver never called "
     "loseConnection, or called it later and not abortively (loseConnection before the handshake finished with nothing written "
-    "aborts by design); bytes racing with the peer's earlier close, and producer writes made after loseConnection, may or may "
-    "not arrive (TLS close semantics / the statement is silent) but must never be reordered, duplicated or corrupted",
+    "aborts by design), and for everything a non-aborting writer's engine encrypted when the reader did not abort; bytes racing "
+    "with the peer's earlier close, and producer writes made after loseConnection, may or may not arrive (TLS close semantics / "
+    "the statement is silent) but must never be reordered, duplicated or corrupted",
     "network model: bytes written before the transport was asked to close stay deliverable; connectionLost is delivered to an "
-    "endpoint after it asked to close, or as EOF once the peer's transport is closed and everything it sent was delivered",
+    "endpoint after it asked to close, or as EOF once the peer's transport is closed and everything it sent was delivered; a "
+    "transport stops its registered producer before reporting connectionLost (as abstract.FileDescriptor does)",
     "canonical state = engine state of both ends, the TLS protocol's documented/private buffers read defensively, transports, "
-    "pending bytes, clocks, producer flags and the reference streams",
+    "pending bytes, clocks, producer flags and the reference streams; private state is never used for a verdict",
 ]
-LEVEL_NOTE = ("Decided on the real tls.py against a model of OpenSSL's memory-BIO API, not against OpenSSL itself; the model is the "
-              "trusted base. Bounded: <= 2 writes per side and the stated depth.")
-MIN = {"quick": {"states": 20000, "nontrivial": 8000, "outcomes": 12},
-       "thorough": {"states": 200000, "nontrivial": 80000, "outcomes": 12}}
+LEVEL_TEXT = ("Bounded-exhaustive: every interleaving of the listed events up to the stated depth is executed on the real "
+              "TLSMemoryBIOProtocol/BufferingTLSTransport and checked against a stream reference; the TLS engine underneath is a "
+              "model that is itself checked state-by-state against the local OpenSSL, and a slice is re-run on real OpenSSL.")
+LEVEL_NOTE = ("The deciding runs use a model of OpenSSL's memory-BIO API (trusted base, conformance-checked against libssl through "
+              "cffi, pyOpenSSL itself absent). Bounded: <= 2 writes per side and the stated depths.")
+MIN = {"quick": {"states": 470000, "nontrivial": 380000, "outcomes": 15, "evaluations": 54000,
+                 "conformance_transitions": 22000, "real_openssl_histories": 54000},
+       "thorough": {"states": 2000000, "nontrivial": 1500000, "outcomes": 15, "conformance_transitions": 90000,
+                    "real_openssl_histories": 200000}}
 ENGINE = "mc.bfs"
 
 MODES = ("direct", "push", "pull")
@@ -257,6 +272,9 @@ class St:
 
     # -- helpers ---------------------------------------------------------------------------------
     def chunk(self, side, i):
+        if self.cfg.get("big") and side.name == "c" and i == 0:
+            # larger than _AggregateSmallWrites.MAX_BUFFER_SIZE and than four 2**14-byte TLS records
+            return bytes([ord("C"), ord("A"), ord("0") + self.seed % 10]) * (self.cfg["big"] // 3)
         return bytes([ord("C") if side.name == "c" else ord("S"), ord("a") + i, ord("0") + self.seed % 10])
 
     def pending(self, to):
@@ -467,6 +485,13 @@ def _must(writer, reader):
     return b"".join(c for c, _ in req), req
 
 
+def _r(b):
+    if isinstance(b, (list, tuple)):
+        return "[%s]" % ", ".join(_r(x) for x in b)
+    b = bytes(b)
+    return repr(b) if len(b) <= 40 else "%r...(%d bytes)" % (b[:12], len(b))
+
+
 def invariant(st, hist):
     out = list(st.bad)
     quiet = not pending_events(st)
@@ -484,15 +509,15 @@ def invariant(st, hist):
                 extra = got[len(exp):]
             if any(f in got for f in wr.forbidden):
                 out.append(("TLS:bytes-written-after-loseConnection-delivered",
-                            "%s application received %r; the peer wrote %r before and %r after its loseConnection" % (
-                                who, got, exp, wr.forbidden)))
+                            "%s application received %s; the peer wrote %s before and %s after its loseConnection" % (
+                                who, _r(got), _r(exp), _r(wr.forbidden))))
             elif any(f in got for f in wr.void):
-                out.append(("TLS:bytes-written-after-connectionLost-delivered", "%s received %r" % (who, got)))
+                out.append(("TLS:bytes-written-after-connectionLost-delivered", "%s received %s" % (who, _r(got))))
             elif extra is not None:
-                out.append(("TLS:extra-bytes-delivered", "%s application received %r, the peer only wrote %r" % (who, got, exp)))
+                out.append(("TLS:extra-bytes-delivered", "%s application received %s, the peer only wrote %s" % (who, _r(got), _r(exp))))
             else:
                 out.append(("TLS:delivered-bytes-not-a-prefix-of-written-bytes",
-                            "%s application received %r, the peer wrote %r" % (who, got, exp)))
+                            "%s application received %s, the peer wrote %s" % (who, _r(got), _r(exp))))
         if rd.app.lost > 1:
             out.append(("TLS:connectionLost-called-more-than-once", "%s application got connectionLost %d times" % (who, rd.app.lost)))
         if rd.app.after_lost:
@@ -514,16 +539,16 @@ def invariant(st, hist):
                     off += len(c)
                 closer = "writer-closed" if wr.lose_idx is not None else "nobody-closed-first"
                 out.append(("TLS:bytes-not-delivered-at-quiescence:%s:%s-write" % (closer, missing),
-                            "quiescent, %s application received %r but the peer wrote %r before its loseConnection" % (
-                                who, got, must)))
+                            "quiescent, %s application received %s but the peer wrote %s before its loseConnection" % (
+                                who, _r(got), _r(must))))
             # whatever the engine of a writer that did not abort encrypted is on the wire in order; a reader that did
             # not abort keeps reading until the writer's close_notify / EOF, which come later in the stream
             sent = b"".join(wr.conn.log_sent)
             if prefix_ok and not rd.abortive and not wr.abortive and exp.startswith(sent) and not got.startswith(sent) and \
                     not (must and not got.startswith(must)):
                 out.append(("TLS:encrypted-bytes-not-delivered-at-quiescence",
-                            "quiescent, the peer's TLS engine encrypted %r but the %s application (which did not abort) "
-                            "received only %r" % (sent, who, got)))
+                            "quiescent, the peer's TLS engine encrypted %s but the %s application (which did not abort) "
+                            "received only %s" % (_r(sent), who, _r(got))))
             # a push producer unregisters when the application decides to (an environment choice); a pull producer
             # finishes by itself as long as the TLS layer keeps pulling it, so it is no excuse
             waits_for_producer = any(s.lose_idx is not None and s.registered and s.mode == "push"
@@ -652,6 +677,10 @@ def configs(tier):
             c = {"version": version, "eof": eof, "modes": ["direct", "direct"], "start": start, "menu": "rec", "frag": 2}
             c["depth"] = _depth(tier, c)
             out.append(c)
+    # one 69999-byte write: more than _AggregateSmallWrites.MAX_BUFFER_SIZE, five 2**14-byte send() calls
+    for (version, eof), _m in plan[:2]:
+        out.append({"version": version, "eof": eof, "modes": ["direct", "direct"], "start": "est", "menu": "rec",
+                    "big": 70000, "depth": 6 if tier == "quick" else 8})
     # trusted base: model engine vs the local libssl (cffi), BFS over API call sequences
     cd = {"fresh": 10, "est": 6} if tier == "quick" else {"fresh": 12, "est": 8}
     for version in ("1.3", "1.2"):
